@@ -208,3 +208,20 @@ _c = _K("RecurrencePlot.recurrence_rate[formula:sequential]", _RPF, lang="py", f
         ensures=["result==fsum(lambda k: VD[k]*(1+k), self.N)/(self.N**2)"], checks=("shape", "bounds"))
 _c.region = "body"
 _c.required_asserts = []
+
+
+# ============================================================================ core: weighted local clustering [Holme2007] (C03)
+# c_w(i) = sum_{k,m} w_im w_mk w_ki / (max(w) * sum_{k,m} w_im w_ki), for every weight matrix, symmetric or not (entry [i,j] is
+# the weight of the link from i to j), written in the association the code uses ((W W) W and (W maxW) W).
+# assumed: weighted_A is handed over as a float64 N x N array (np.array(weighted_A) then keeps the values).
+_c = _K("Network.weighted_local_clustering[formula]", _NW, lang="py", func="Network.weighted_local_clustering", props=("C03",),
+        py_mode=True, vectors=True, inputs={"weighted_A": "arr:float64:2", "NN": "int"},
+        requires=["NN>=1", "shape(weighted_A,0)==NN and shape(weighted_A,1)==NN"],
+        ensures=["shape(result,0)==NN",
+                 "all(result[q]==fsum(lambda k: fsum(lambda m: weighted_A[q,m]*weighted_A[m,k], NN)*weighted_A[k,q], NN)"
+                 "/fsum(lambda k: fsum(lambda m: weighted_A[q,m]*amax(weighted_A), NN)*weighted_A[k,q], NN) for q in range(NN))"],
+        checks=("shape", "bounds"))
+_c.region = "body"
+_c.required_asserts = []
+_c.rtc_py = True
+_c.array_inputs_are_arrays = True
